@@ -19,6 +19,7 @@ mod c02;
 mod c14;
 mod c15;
 mod c16;
+mod c06;
 
 pub struct Out {
     pub cases: BufWriter<File>,
@@ -92,6 +93,7 @@ fn main() {
                 "C14" => c14::gen(seed, n, &mut out),
                 "C15" => c15::gen(seed, n, &mut out),
                 "C16" => c16::gen(seed, n, &mut out),
+                "C06" => c06::gen(seed, n, &mut out),
                 "C03" => c03::gen(seed, n, &mut out),
                 "C04" => c04::gen(seed, n, &mut out),
                 "C05csr" => c05::gen_csr(seed, n, &mut out),
